@@ -3,7 +3,7 @@
    what that property's statements need, so that a change which breaks one property's proof leaves the
    others' theorems checkable. *)
 From NTRIP Require Import Base Html Net.
-From NTRIP Require Relay.
+From NTRIP Require Relay RelayLocal.
 
 (* ===================== C19 (report part) ===================== *)
 (* Every traffic-derived part of the status page (both buffer dumps and the message list) is
@@ -51,4 +51,15 @@ Theorem C19_relay_final :
   buf (nth 0%nat (chans f) (dchan _)) = [] /\ buf (nth 1%nat (chans f) (dchan _)) = [].
 Proof. exact Relay.fin_shape. Qed.
 Print Assumptions C19_relay_final.
+
+(* Not only at the end: after ANY number of steps of ANY schedule the server has been written a prefix of the
+   client's chunks, each unchanged and in order - whatever the parser and the queue updater are doing. *)
+Theorem C19_relay_prefix_always :
+  forall (B M FS : Type) (fstep : FS -> B -> FS * list M) (sync : nat -> bool) cap0 cap1 (chunks : list (list B)) (s0 : FS) n c,
+  steps _ (nstep _ _ _ (Relay.prog B M FS fstep sync) Relay.sender Relay.receiver (Relay.QDead B M FS)) n
+        (Relay.init B M FS cap0 cap1 chunks s0) c ->
+  exists done rest, chunks = (done ++ rest)%list /\ Relay.server_writes B M FS c = map (Relay.EvW B M) done.
+Proof. exact RelayLocal.relay_prefix_always. Qed.
+Print Assumptions C19_relay_prefix_always.
+
 
